@@ -38,13 +38,15 @@ REG = [
     {"id": "ck", "secret": "", "method": METHOD},
     {"id": "c:x", "secret": "p%w d", "method": "client_secret_basic"},
     {"id": "cé", "secret": "sé", "method": "client_secret_basic"},
+    # registered without token_endpoint_auth_method: the default (client_secret_basic) is what is enforced
+    {"id": "cd", "secret": "sd", "method": "client_secret_basic", "omit_method": True},
 ]
 
 
 def make_clients():
     return {c["id"]: S.Client(c["id"], c["secret"], ["https://client.example/cb"], "a b",
                               ["password", "client_credentials", "refresh_token", "authorization_code"],
-                              ["code"], c["method"]) for c in REG}
+                              ["code"], None if c.get("omit_method") else c["method"]) for c in REG}
 
 
 class Assertion(JWTBearerClientAssertion):
@@ -72,7 +74,7 @@ def basic_headers():
     """(label, header) shapes."""
     out = [("absent", None), ("empty", "")]
     creds = [("c1", "s1"), ("c1", "bad"), ("c1", ""), ("c1", "s2"), ("zz", "s1"), ("c2", "s2"), ("pub", "x"), ("", "s1"),
-             ("cj", "jwt-secret-0123456789abcdef0123456789"), ("cé", "sé"), ("c1", "sé")]
+             ("cj", "jwt-secret-0123456789abcdef0123456789"), ("cé", "sé"), ("c1", "sé"), ("cd", "sd"), ("cd", "bad")]
     for cid, sec in creds:
         out.append(("std:%s:%s" % (cid, sec), "Basic " + b64("%s:%s" % (cid, sec))))
     out += [
@@ -181,7 +183,7 @@ METHOD_LISTS = [["client_secret_basic"], ["client_secret_basic", "client_secret_
 ENDPOINTS = ["token", "revocation", "introspection", "device_authorization"]
 
 FORM_CREDS = [None, ("c2", "s2"), ("c2", "bad"), ("c2", ""), ("zz", "s2"), ("c1", "s1"), ("pub", None), ("pub", "x"),
-              ("pub", ""), ("c1", None), ("", "s1"), ("zz", None)]
+              ("pub", ""), ("c1", None), ("", "s1"), ("zz", None), ("cd", "sd"), ("cd", None), ("cd", "")]
 
 
 def run_authenticate(ctx, clients, header, form_cred, query_id, assertion, methods, endpoint, used, shared=None, query_secret=None):
